@@ -248,9 +248,16 @@ Definition render_graphics (refresh : bool) (glast gnext : list placement) : lis
 (* what an application does between and at frames *)
 Inductive gop :=
 | OClear                    (* Window.Clear: graphicsNext = [] *)
-| ODraw (p : placement)     (* KittyImage.Draw / Sixel.Draw: append to graphicsNext *)
+| ODraw (p : placement) (winw winh : Z)
+                            (* KittyImage.Draw / Sixel.Draw (of an image that has been encoded, not
+                               empty) into a window of winw x winh cells: append to graphicsNext
+                               unless the image is larger than the window *)
 | ORender                   (* Vaxis.Render *)
 | ORefresh.                 (* Vaxis.Refresh: render with vx.refresh set *)
+
+Definition draw_fits (p : placement) (winw winh : Z) : bool := negb ((winw <? p_w p) || (winh <? p_h p)).
+Definition draw_into (gnext : list placement) (p : placement) (winw winh : Z) : list placement :=
+  if draw_fits p winw winh then gnext ++ [p] else gnext.
 
 Record gstate := { g_last : list placement; g_next : list placement }.
 Definition g_init : gstate := {| g_last := []; g_next := [] |}.
@@ -260,7 +267,7 @@ Fixpoint run_ops (s : gstate) (ops : list gop) : list (list gevent) :=
   match ops with
   | [] => []
   | OClear :: t => run_ops {| g_last := g_last s; g_next := [] |} t
-  | ODraw p :: t => run_ops {| g_last := g_last s; g_next := g_next s ++ [p] |} t
+  | ODraw p ww wh :: t => run_ops {| g_last := g_last s; g_next := draw_into (g_next s) p ww wh |} t
   | ORender :: t =>
       let '(ev, gl) := render_graphics false (g_last s) (g_next s) in
       ev :: run_ops {| g_last := gl; g_next := g_next s |} t
@@ -446,16 +453,17 @@ Definition c20_pixels_violations (cases : list pixels_case) : list Z :=
 (* stream "placement": a history of operations on a real Vaxis (kitty graphics advertised) and,
    per Render/Refresh, the snapshot of graphicsNext and the placement control sequences found in
    the console output.
-   op = (code, id, col, row, w, h): 0 Clear, 1 Draw, 2 Render, 3 Refresh;
+   op = (code, id, col, row, w, h, winw, winh): 0 Clear, 1 Draw (into a window of winw x winh
+   cells), 2 Render, 3 Refresh;
    frame = (refresh, graphicsNext, events); event = (tag, id, col, row): 0 delete, 1 write
    (a=p preceded by CUP row+1;col+1), anything else = malformed output. *)
 Definition rawp := (Z * Z * Z * Z * Z)%type.
 Definition mk_p (r : rawp) : placement :=
   let '(i, c, rw, w, h) := r in {| p_id := i; p_col := c; p_row := rw; p_w := w; p_h := h |}.
-Definition rawop := (Z * Z * Z * Z * Z * Z)%type.
+Definition rawop := (Z * Z * Z * Z * Z * Z * Z * Z)%type.
 Definition mk_op (r : rawop) : gop :=
-  let '(code, i, c, rw, w, h) := r in
-  if code =? 0 then OClear else if code =? 1 then ODraw (mk_p (i, c, rw, w, h))
+  let '(code, i, c, rw, w, h, ww, wh) := r in
+  if code =? 0 then OClear else if code =? 1 then ODraw (mk_p (i, c, rw, w, h)) ww wh
   else if code =? 2 then ORender else ORefresh.
 Definition rawev := (Z * Z * Z * Z)%type.
 Definition ev_key (e : gevent) : rawev :=
@@ -474,7 +482,7 @@ Fixpoint next_at_renders (gnext : list placement) (ops : list gop) : list (list 
   match ops with
   | [] => []
   | OClear :: t => next_at_renders [] t
-  | ODraw p :: t => next_at_renders (gnext ++ [p]) t
+  | ODraw p ww wh :: t => next_at_renders (draw_into gnext p ww wh) t
   | ORender :: t | ORefresh :: t => gnext :: next_at_renders gnext t
   end.
 
@@ -499,8 +507,15 @@ Fixpoint frames_key_ok (prev : list placement) (frames : list rawframe) : bool :
   | (r, cur, ev) :: t => frame_key_ok (negb (r =? 0)) prev (map mk_p cur) ev && frames_key_ok (map mk_p cur) t
   end.
 
+(* every placement shown in a frame was drawn into a window that holds it *)
+Definition drawn_inside (rops : list rawop) (p : placement) : bool :=
+  existsb (fun r : rawop => let '(code, i, c, rw, w, h, ww, wh) := r in
+                            (code =? 1) && same_placement p (mk_p (i, c, rw, w, h)) && (w <=? ww) && (h <=? wh)) rops.
+Definition frames_inside_ok (rops : list rawop) (frames : list rawframe) : bool :=
+  forallb (fun f : rawframe => forallb (fun rp => drawn_inside rops (mk_p rp)) (snd (fst f))) frames.
+
 Definition c20_placement_violations (cases : list placement_case) : list Z :=
-  bad_indices (fun c => negb (frames_key_ok [] (snd c))) cases.
+  bad_indices (fun c => negb (frames_key_ok [] (snd c) && frames_inside_ok (fst c) (snd c))) cases.
 
 (* stream "float": the hardware's  float64(a) / float64(b) * float64(c)  as the exact fraction n/d
    (from math.Frexp), for positive a b c.  Ties the integer-only [rn] to the real binary64. *)
@@ -551,4 +566,4 @@ Fixpoint frames_sixel_ok (prev : list placement) (frames : list rawframe) : bool
   end.
 
 Definition c20_sixel_violations (cases : list placement_case) : list Z :=
-  bad_indices (fun c => negb (frames_sixel_ok [] (snd c))) cases.
+  bad_indices (fun c => negb (frames_sixel_ok [] (snd c) && frames_inside_ok (fst c) (snd c))) cases.
